@@ -56,12 +56,64 @@ func (c *Ctx) guardedField(rule, pkgRel, typ, field, lockPath string, exempt map
 				if !okHeld && f.Parent() != nil {
 					okHeld = c.closureRunsUnderLock(f, lockPath)
 				}
+				// a lock held by every caller counts (helper methods called with the lock held)
+				if !okHeld && f.Parent() == nil && base != "" && !strings.Contains(base, ".") {
+					for pi, p := range f.Params {
+						if p.Name() == base {
+							okHeld = c.heldByAllCallers(f, pi, lockPath, 0)
+						}
+					}
+				}
 				R.Check(okHeld, rule, key, P.Pos(fa.Pos()), typ+"."+field+" accessed under "+lockPath,
 					typ+"."+field+" is accessed without holding "+want+" (held: "+engine.HeldString(h)+"): concurrent sessions/updates race on it")
 			}
 		}
 	}
 	return n
+}
+
+// heldByAllCallers: every call site of f (at least one) holds <arg for param pi>.<lockPath>,
+// directly or - for a caller that passes its own parameter on - through its callers.
+func (c *Ctx) heldByAllCallers(f *ssa.Function, pi int, lockPath string, depth int) bool {
+	if depth > 3 {
+		return false
+	}
+	n := 0
+	for _, cs := range c.P.CallersOf(f) {
+		if !isProductPkg(engine.RelPkg(c.P.OwnPkgPath(cs.Fn))) {
+			continue
+		}
+		if _, isGo := cs.Instr.(*ssa.Go); isGo {
+			return false
+		}
+		n++
+		arg := engine.ArgForParam(cs.Common(), f, pi)
+		if arg == nil {
+			return false
+		}
+		base := engine.AccessPath(arg)
+		if base == "" {
+			return false
+		}
+		if engine.HeldAt(cs.Fn)(cs.Instr)[base+"."+lockPath] {
+			continue
+		}
+		if cs.Fn.Parent() != nil && c.closureRunsUnderLock(cs.Fn, lockPath) {
+			continue
+		}
+		ok := false
+		if cs.Fn.Parent() == nil && !strings.Contains(base, ".") {
+			for qi, q := range cs.Fn.Params {
+				if q.Name() == base {
+					ok = c.heldByAllCallers(cs.Fn, qi, lockPath, depth+1)
+				}
+			}
+		}
+		if !ok {
+			return false
+		}
+	}
+	return n > 0
 }
 
 // sameFieldByName matches fields of instantiated generic types.
